@@ -101,41 +101,95 @@ def run(chk):
             continue
         want = ((not exclude) and (not match)) if parallel else (match == exclude)
         chk.ob("O11.1", inst, got == want, fo, f"removes: {got}; documented: {want}", key=f"{_L}:_filter_out_match:{exclude}|{parallel}|{match}")
-    # mode selection
-    ex_sets = [n for n in walk_body(init) if isinstance(n, ast.Assign) and any(is_self_attr(t, "exclude") for t in n.targets)]
-    ok = len(ex_sets) == 2
-    for n in ex_sets:
-        gs = guards(n)
-        inc = any(u(t) == "include_tasks" for t, pol in gs)
-        pol = [p for t, p in gs if u(t) == "include_tasks"]
-        ok = ok and inc and ((pol[0] and source.is_const(n.value, False)) or ((not pol[0]) and source.is_const(n.value, True)))
-    chk.ob("O11.1", "include list given => include mode, else exclude mode", ok, init, "")
+    # mode selection, decided over (include list given?, exclude list given?): which list feeds the filters and which mode is set
+    from sa import minieval
     idefs = local_defs(init)
-    for var, key in (("include_tasks", "include.tasks"), ("exclude_tasks", "exclude.tasks")):
-        d = idefs.get(var)
-        ok = d is not None and isinstance(d, ast.Call) and any(source.is_const(a, key) for a in d.args)
-        chk.ob("O11.1", f"{var} read from option {key}", ok, d if d is not None else init, "")
-    # spec parsing
-    ctor = {}
-    for n in walk_body(ff):
-        if isinstance(n, ast.Call) and last_attr(n.func) in ("TaskNameFilter", "TaskOpTypeFilter", "TaskTagFilter"):
-            gs = [(u(t), pol) for t, pol in guards(n)]
-            ctor[last_attr(n.func)] = (n, gs)
-    want = {"TaskNameFilter": ("len(spec) == 1", None, "spec[0]"), "TaskOpTypeFilter": ("len(spec) == 2", "spec[0] == 'type'", "spec[1]"), "TaskTagFilter": ("len(spec) == 2", "spec[0] == 'tag'", "spec[1]")}
-    for cname, (lencond, kindcond, arg) in want.items():
-        if cname not in ctor:
-            chk.ob("O11.1", f"spec parsing: {cname}", False, ff, "never constructed")
-            continue
-        n, gs = ctor[cname]
-        conds = {t for t, pol in gs if pol}
-        ok = lencond in conds and (kindcond is None or kindcond in conds) and u(n.args[0]) == arg
-        chk.ob("O11.1", f"spec parsing: {cname}({arg}) under {lencond}{' and ' + kindcond if kindcond else ''}", ok, n, f"guards {gs}")
-    sp = [n for n in walk_body(ff) if isinstance(n, ast.Assign) and isinstance(n.targets[0], ast.Name) and n.targets[0].id == "spec"]
-    ok = bool(sp) and isinstance(sp[0].value, ast.Call) and last_attr(sp[0].value.func) == "split" and source.is_const(sp[0].value.args[0], ":")
-    chk.ob("O11.1", "spec split on ':'", ok, sp[0] if sp else ff, "")
-    g = cfg_of(ff)
-    raises = [n for n in walk_body(ff) if isinstance(n, ast.Raise)]
-    chk.ob("O11.1", "unknown prefix / wrong arity rejected", len(raises) >= 2, ff, f"{len(raises)} raise site(s)")
+    opt_role = {}
+    for nm, d in idefs.items():
+        if isinstance(d, ast.Call) and last_attr(d.func) == "opts":
+            for key, role in (("include.tasks", "inc"), ("exclude.tasks", "exc")):
+                if any(source.is_const(a_, key) for a_ in d.args):
+                    opt_role[nm] = role
+    chk.ob("O11.1", "include / exclude lists read from the options include.tasks / exclude.tasks", sorted(opt_role.values()) == ["exc", "inc"], init, f"{opt_role}")
+    ffc = [c for c in walk_body(init) if isinstance(c, ast.Call) and last_attr(c.func) == ff.name]
+    for inc_given, exc_given in itertools.product([True, False], repeat=2):
+        lists = {"inc": ["i"] if inc_given else None, "exc": ["e"] if exc_given else None}
+
+        def atom_i(n, env):
+            if isinstance(n, ast.Call) and last_attr(n.func) == "opts":
+                r_ = [role for key, role in (("include.tasks", "inc"), ("exclude.tasks", "exc")) if any(source.is_const(a_, key) for a_ in n.args)]
+                return bool(lists[r_[0]]) if r_ else None
+            try:
+                return bool(minieval.ev(n, {nm: lists[r] for nm, r in opt_role.items()}))
+            except minieval.CannotEval:
+                return None
+
+        try:
+            out = decide(init.body, atom_i, {})
+        except (Unsupported, UnknownAtom) as e:
+            chk.unknown("O11.1", f"mode selection is not a decision over the two option lists: {e}", init)
+            break
+        bnd = getattr(out, "bindings", {})
+        mode = [e_ for e_ in out.effects if isinstance(e_, ast.Assign) and any(is_self_attr(t_, "exclude") for t_ in e_.targets)]
+        fed = source.inline_node(ffc[0].args[0], {}) if ffc and ffc[0].args else None
+        fed_t = u(bnd[fed.id]) if isinstance(fed, ast.Name) and bnd.get(fed.id) is not None else (u(fed) if fed is not None else None)
+        fed_role = next((r for key, r in (("include.tasks", "inc"), ("exclude.tasks", "exc")) if fed_t and f"'{key}'" in fed_t), None)
+        want_mode, want_role = (False, "inc") if inc_given else (True, "exc")
+        ok = len(mode) >= 1 and source.is_const(mode[-1].value, want_mode) and fed_role == want_role
+        chk.ob("O11.1", f"include list {'given' if inc_given else 'absent'}, exclude list {'given' if exc_given else 'absent'} => {'include' if inc_given else 'exclude'} mode on that list", ok, init,
+               f"exclude := {u(mode[-1].value) if mode else '?'}; filters built from {fed_t}", key=f"{_L}:TaskFilterTrackProcessor.__init__:mode:{inc_given}|{exc_given}")
+    # spec parsing, decided on VALUES: the item is split on ':' and handed on verbatim (case preserved)
+    floops = [n for n in walk_body(ff) if isinstance(n, ast.For) and u(n.iter) == params_of(ff)[1]]
+    if not floops:
+        raise AnchorMissing("loop over the filter items in _filters_from_filtered_tasks")
+    FL = floops[0]
+    item = FL.target.id
+    SAMPLES = [("Bulk-EU", ("TaskNameFilter", "Bulk-EU")), ("type:followerStats", ("TaskOpTypeFilter", "followerStats")), ("tag:regionEU", ("TaskTagFilter", "regionEU")),
+               ("kind:x", ("raise", None)), ("a:b:c", ("raise", None)), ("Type:search", ("raise", None))]
+    for text, (wk, wv) in SAMPLES:
+        cur = {}
+
+        def hook(s_, env, b_):
+            cur["b"] = b_
+            return None
+
+        def val_env():
+            env_ = {item: text}
+            for _ in range(3):
+                for k_, v_ in cur.get("b", {}).items():
+                    if v_ is not None and k_ not in env_:
+                        try:
+                            env_[k_] = minieval.ev(v_, dict(env_))
+                        except minieval.CannotEval:
+                            pass
+            return env_
+
+        def atom_s(n, env):
+            try:
+                return bool(minieval.ev(n, val_env()))
+            except minieval.CannotEval:
+                return None
+
+        try:
+            out = decide(FL.body, atom_s, {}, on_stmt=hook)
+        except (Unsupported, UnknownAtom) as e:
+            chk.unknown("O11.1", f"spec parsing is not a decision over the split item: {e}", FL)
+            break
+        if wk == "raise":
+            ok = out.kind == "raise"
+            got = out.text()[:60]
+        else:
+            cons = [e_.args[0] for e_ in out.effects if isinstance(e_, ast.Call) and last_attr(e_.func) == "append" and e_.args and isinstance(e_.args[0], ast.Call)]
+            got = "no filter"
+            ok = False
+            if len(cons) == 1 and cons[0].args:
+                try:
+                    v = minieval.ev(cons[0].args[0], val_env())
+                    got = f"{last_attr(cons[0].func)}({v!r})"
+                    ok = last_attr(cons[0].func) == wk and v == wv
+                except minieval.CannotEval as e:
+                    got = f"{short(cons[0], 60)} (not evaluable: {e})"
+        chk.ob("O11.1", f"spec parsing: item {text!r} => {wk}{'(' + repr(wv) + ')' if wv else ''}", ok, FL, f"got {got}", key=f"{_L}:_filters_from_filtered_tasks:item:{text}")
     # filter classes
     for cname, expr in (("TaskNameFilter", ("self.name == task.name", "task.name == self.name")), ("TaskOpTypeFilter", ("self.op_type == task.operation.type", "task.operation.type == self.op_type")),
                         ("TaskTagFilter", ("self.tag_name in task.tags",))):
@@ -258,10 +312,15 @@ def run(chk):
         ok = rt is not None and len(rt.body) == 1 and isinstance(rt.body[0], ast.Expr) and isinstance(rt.body[0].value, ast.Call) and last_attr(rt.body[0].value.func) == "remove"
         chk.ob("O11.3", f"{cname}.remove_task is a plain list removal", ok, rt if rt else c, "")
     # all challenges are filtered; leaves of kept parallels are filtered individually
-    ok = any(isinstance(n, ast.For) and u(n.iter).endswith(".challenges") for n in walk_body(oa))
-    chk.ob("O11.3", "every challenge is filtered", ok, oa, "")
+    chl = [n for n in walk_body(oa) if isinstance(n, ast.For) and u(n.iter).endswith(".challenges")]
+    jumps = [x for n in chl for x in ast.walk(n) if isinstance(x, ast.Return) or (isinstance(x, ast.Break) and source.enclosing(x, (ast.For, ast.While)) is n)]
+    ok = len(chl) == 1 and not jumps
+    chk.ob("O11.3", "every challenge is filtered (the loop over the challenges runs to the end)", ok, jumps[0] if jumps else oa,
+           "" if ok else ("the loop over the challenges is left early: later challenges keep their unfiltered schedule" if chl else "no loop over the challenges"),
+           key=f"{_L}:TaskFilterTrackProcessor.on_after_load_track:all-challenges")
+    from sa import pat as _pat
     early = [n for n in walk_body(oa) if isinstance(n, ast.Return) and guards(n)]
-    ok = all(any(pol and u(t) == "not self.filters" for t, pol in guards(n)) for n in early)
+    ok = all(_pat.guarded(n, "not self.filters") is not None for n in early)
     chk.ob("O11.3", "early return only without filters", ok, early[0] if early else oa, "")
 
     # ---- O11.4 consumer agreement ----------------------------------------------------------------------------------------------------------------------------
